@@ -1054,6 +1054,8 @@ class Exec:
             if op == '||' or op == '|':
                 return Or(x, y)
             raise Unsupported('bool binop ' + op)
+        if op == '+' and getattr(x, 'go_concat', None) is not None:
+            return x.go_concat(self, y)
         if op == '+' and getattr(y, 'go_rconcat', None) is not None:
             return y.go_rconcat(self, x)
         if isinstance(x, str) or isinstance(y, str) or (is_sym(x) and x.sort() == z3.StringSort()):
